@@ -93,6 +93,7 @@ func (s *Server) Serve(l net.Listener) error {
 		// Close or Shutdown has already closed the listeners it knew of:
 		// this one would never be closed and Accept would block forever.
 		s.locker.Unlock()
+		l.Close()
 		return ErrServerClosed
 	default:
 	}
